@@ -516,7 +516,7 @@ theorem filterMap_flatMap_nodup {α β γ : Type} [DecidableEq α] (l : List α)
       have : (a = b) = False := by simp; exact fun h => hba h.symm
       simp [this]
 
-theorem charCalls_loop (qs : List Query) (c : CharId) :
+theorem upperCalls_loop (qs : List Query) (a s : Nat) :
     svcCalls (qs.filterMap called) a s = [] ∧ accCalls (qs.filterMap called) a = [] := by
   constructor
   · unfold svcCalls
@@ -619,5 +619,194 @@ theorem accCalls_pass (T : Topo) (ups : List Upd) (a : Nat) :
     have := accCalls_passEvs T ups a' a
     unfold accCalls at this
     rw [this]; simp [hne]
+
+
+/-! ### small facts used by the property theorems -/
+
+theorem distinct_inj {qs : List Query} (hd : Distinct qs) {q q' : Query} (hq : q ∈ qs) (hq' : q' ∈ qs)
+    (hid : q'.id = q.id) : q' = q := by
+  induction qs with
+  | nil => cases hq
+  | cons p ps ih =>
+    simp only [Distinct, List.map_cons, List.nodup_cons, List.mem_map, not_exists, not_and] at hd
+    rcases List.mem_cons.1 hq with rfl | h1 <;> rcases List.mem_cons.1 hq' with rfl | h2
+    · rfl
+    · exact absurd hid (hd.1 q' h2)
+    · exact absurd hid.symm (hd.1 q h1)
+    · exact ih hd.2 h1 h2
+
+theorem ov_eq_zero {r : Option Int} {s : Int} (h : ov r s = 0) : s = 0 ∧ (r = none ∨ r = some 0) := by
+  unfold ov at h
+  cases r with
+  | none => exact ⟨h, Or.inl rfl⟩
+  | some x =>
+    by_cases hx : x = 0
+    · simp [hx] at h; exact ⟨h, Or.inr (by rw [hx])⟩
+    · simp [hx] at h
+
+theorem pyOr_ok {a b : Option Int} (h : pyOr a b = none ∨ pyOr a b = some 0) :
+    (a = none ∨ a = some 0) ∧ (b = none ∨ b = some 0) := by
+  unfold pyOr at h
+  cases a with
+  | none => exact ⟨Or.inl rfl, h⟩
+  | some x =>
+    by_cases hx : x = 0
+    · subst hx; simp at h; exact ⟨Or.inr rfl, h⟩
+    · simp [hx] at h
+
+theorem cbResult_ok {b : Bool} (h : some (cbResult b) = none ∨ some (cbResult b) = some 0) : b = false := by
+  cases b with
+  | false => rfl
+  | true => simp [cbResult, FAIL] at h
+
+/-- a refused timed write (repaired code): nothing runs, nothing is collected -/
+theorem expired_facts (T : Topo) (B : Behav) (vals : CharId → Val) (qs : List Query) :
+    (setChars true T B true vals qs).vals = vals ∧ (setChars true T B true vals qs).log = [] ∧
+    ∀ x, x ∈ (setChars true T B true vals qs).chars ↔ ∃ q ∈ qs, x = (q.id, ⟨INVALID, none⟩) := by
+  refine ⟨?_, ?_, ?_⟩
+  · rw [setChars_vals]
+    have : qs.filter (fun q => answered true q && runs true true q) = [] := by
+      rw [List.filter_eq_nil_iff]; intro q _; simp [runs]
+    rw [this]; rfl
+  · rw [setChars_log]; simp [runs, upsOf, accsOf, firsts]
+  · intro x
+    rw [mem_chars]
+    simp [answered, entryRes, res0, runs]
+
+/-! ### histories: prepare / advance / write / lose -/
+
+/-- the op changes `prepared_writes[c][p]` -/
+def Touches (c : Conn) (p : Pid) : Op → Prop
+  | .prepare c' ttl pid => c' = c ∧ ttl.isSome = true ∧ pid = some p
+  | .write c' b => c' = c ∧ b.pid = some p
+  | .lose c' => c' = c
+  | .advance _ => False
+
+/-- Connection `c` holds a usable prepare for `p` with expiry `e` after the history `hrev`
+    (most recent op first): some well-formed `prepare` of `p` by `c` at time `e - ttl`, and since
+    then no write of `c` carrying `p`, no loss of `c`, and no newer prepare of `p` by `c`. -/
+def LivePrep (fixed : Bool) (T : Topo) (s0 : State) (hrev : List Op) (c : Conn) (p : Pid) (e : Nat) : Prop :=
+  ∃ later earlier ttl, hrev = later ++ Op.prepare c (some ttl) (some p) :: earlier ∧
+    (∀ op ∈ later, ¬ Touches c p op) ∧ e = (runRev fixed T s0 earlier).now + ttl
+
+theorem livePrep_cons (fixed : Bool) (T : Topo) (s0 : State) (op : Op) (h : List Op) (c : Conn) (p : Pid) (e : Nat) :
+    LivePrep fixed T s0 (op :: h) c p e ↔
+      (∃ ttl, op = Op.prepare c (some ttl) (some p) ∧ e = (runRev fixed T s0 h).now + ttl) ∨
+      (¬ Touches c p op ∧ LivePrep fixed T s0 h c p e) := by
+  constructor
+  · rintro ⟨later, earlier, ttl, heq, hno, he⟩
+    cases later with
+    | nil =>
+      simp only [List.nil_append, List.cons.injEq] at heq
+      obtain ⟨h1, h2⟩ := heq
+      subst h1 h2
+      exact Or.inl ⟨ttl, rfl, he⟩
+    | cons o later' =>
+      simp only [List.cons_append, List.cons.injEq] at heq
+      obtain ⟨h1, h2⟩ := heq
+      subst h1 h2
+      exact Or.inr ⟨hno _ (List.mem_cons_self ..),
+        later', earlier, ttl, rfl, fun o' ho' => hno o' (List.mem_cons_of_mem _ ho'), he⟩
+  · rintro (⟨ttl, rfl, he⟩ | ⟨hnt, later, earlier, ttl, rfl, hno, he⟩)
+    · exact ⟨[], h, ttl, rfl, by simp, he⟩
+    · refine ⟨op :: later, earlier, ttl, rfl, ?_, he⟩
+      intro o ho
+      rcases List.mem_cons.1 ho with rfl | ho'
+      · exact hnt
+      · exact hno o ho'
+
+theorem step_prep_untouched (fixed : Bool) (T : Topo) (s : State) (op : Op) (c : Conn) (p : Pid)
+    (h : ¬ Touches c p op) : (step fixed T s op).prep c p = s.prep c p := by
+  cases op with
+  | prepare c' ttl pid =>
+    cases ttl with
+    | none => cases pid <;> rfl
+    | some t =>
+      cases pid with
+      | none => rfl
+      | some p' =>
+        simp only [Touches, Option.isSome_some, Option.some.injEq, true_and] at h
+        have : ¬ (c = c' ∧ p = p') := fun ⟨h1, h2⟩ => h ⟨h1.symm, h2.symm⟩
+        simp [step, prepare, this]
+  | advance dt => rfl
+  | write c' b =>
+    simp only [step, write, popPid]
+    cases hb : b.pid with
+    | none => rfl
+    | some p' =>
+      simp only [Touches, hb, Option.some.injEq] at h
+      have : ¬ (c = c' ∧ p = p') := fun ⟨h1, h2⟩ => h ⟨h1.symm, h2.symm⟩
+      simp [this]
+  | lose c' =>
+    simp only [Touches] at h
+    have : ¬ c = c' := fun h1 => h h1.symm
+    simp [step, lose, this]
+
+theorem step_prep_touched (fixed : Bool) (T : Topo) (s : State) (op : Op) (c : Conn) (p : Pid)
+    (h : Touches c p op) :
+    (step fixed T s op).prep c p =
+      match op with
+      | .prepare _ (some ttl) (some _) => some (s.now + ttl)
+      | _ => none := by
+  cases op with
+  | prepare c' ttl pid =>
+    simp only [Touches] at h
+    obtain ⟨rfl, h2, rfl⟩ := h
+    cases ttl with
+    | none => simp at h2
+    | some t => simp [step, prepare]
+  | advance dt => simp [Touches] at h
+  | write c' b =>
+    simp only [Touches] at h
+    simp [step, write, popPid, h.2, h.1]
+  | lose c' =>
+    simp only [Touches] at h
+    simp [step, lose, h]
+
+/-- the invariant on `prepared_writes`: the table holds exactly the live prepares -/
+theorem prep_iff_live (fixed : Bool) (T : Topo) (s0 : State) (h0 : ∀ c p, s0.prep c p = none)
+    (hrev : List Op) (c : Conn) (p : Pid) (e : Nat) :
+    (runRev fixed T s0 hrev).prep c p = some e ↔ LivePrep fixed T s0 hrev c p e := by
+  induction hrev generalizing e with
+  | nil =>
+    simp only [runRev, h0, LivePrep]
+    constructor
+    · intro h; cases h
+    · rintro ⟨later, earlier, ttl, heq, _⟩; cases later <;> simp at heq
+  | cons op h ih =>
+    rw [livePrep_cons, runRev]
+    by_cases ht : Touches c p op
+    · rw [step_prep_touched _ _ _ _ _ _ ht]
+      cases op with
+      | prepare c' ttl pid =>
+        simp only [Touches] at ht
+        obtain ⟨rfl, h2, rfl⟩ := ht
+        cases ttl with
+        | none => simp at h2
+        | some t =>
+          simp only [Option.some.injEq]
+          constructor
+          · intro he; exact Or.inl ⟨t, rfl, he.symm⟩
+          · rintro (⟨ttl, heq, he⟩ | ⟨hnt, _⟩)
+            · simp only [Op.prepare.injEq, Option.some.injEq, true_and, and_true] at heq
+              subst heq; exact he.symm
+            · exact absurd (show Touches c' p (Op.prepare c' (some t) (some p)) from ⟨rfl, rfl, rfl⟩) hnt
+      | advance dt => simp [Touches] at ht
+      | write c' b =>
+        simp only [ht, not_true_eq_false, false_and, or_false]
+        constructor
+        · intro h; cases h
+        · rintro ⟨ttl, heq, _⟩; cases heq
+      | lose c' =>
+        simp only [ht, not_true_eq_false, false_and, or_false]
+        constructor
+        · intro h; cases h
+        · rintro ⟨ttl, heq, _⟩; cases heq
+    · rw [step_prep_untouched _ _ _ _ _ _ ht, ih]
+      constructor
+      · intro hl; exact Or.inr ⟨ht, hl⟩
+      · rintro (⟨ttl, rfl, _⟩ | ⟨_, hl⟩)
+        · exact absurd (show Touches c p (Op.prepare c (some ttl) (some p)) from ⟨rfl, rfl, rfl⟩) ht
+        · exact hl
 
 end Hap.Writes
